@@ -65,7 +65,7 @@ namespace IrVerif.Writer
 
 theorem finishTask_cases (cfg : Cfg) (s : State) (i : Nat) (ok : Bool) :
     (ok = true ∧ cfg.hasNext i = true ∧
-      finishTask cfg s i ok = { s with tasks := (s.tasks.set i (.done true)).set (i + 1) .cbAcq })
+      finishTask cfg s i ok = { s with tasks := (s.tasks.set i (.done true)).set (i + 1) .tAcq })
     ∨ ((ok = false ∨ cfg.hasNext i = false) ∧
       finishTask cfg s i ok =
         { s with tasks := s.tasks.set i (.done ok)
@@ -147,7 +147,7 @@ theorem SInv_wake {cfg : Cfg} {s : State} (h : SInv cfg s) :
 theorem SInv_start_next {cfg : Cfg} {s : State} (h : SInv cfg s) {i : Nat}
     (hi : s.tasks[i]? = some (.done true)) (hn : cfg.hasNext i = true)
     (hnext : s.tasks[i + 1]? = some .notStarted) :
-    SInv cfg { s with tasks := s.tasks.set (i + 1) .cbAcq } := by
+    SInv cfg { s with tasks := s.tasks.set (i + 1) .tAcq } := by
   obtain ⟨hlt, hj⟩ := hasNext_iff.1 hn
   refine ⟨by simp [h.tasks_len], h.futs_len, h.locks_len, h.q_nodup, h.q_pending, ?_, h.submitting, ?_⟩
   · intro k q hk hq
@@ -243,7 +243,7 @@ theorem budgetTry_cases (cfg : Cfg) (s : State) (i : Nat) :
 theorem SInv_take {cfg : Cfg} (wf : WF cfg) {s : State} (h : SInv cfg s) {j : Nat} {q : List Nat}
     (hq : s.queue = j :: q) :
     SInv cfg { s with queue := q, idle := s.idle - 1, futs := s.futs.set j .running
-                      tasks := s.tasks.set (cfg.jobStarts.getD j 0) .cbAcq } := by
+                      tasks := s.tasks.set (cfg.jobStarts.getD j 0) .tAcq } := by
   have hnd := h.q_nodup
   rw [hq] at hnd
   have hjq : j ∉ q := (List.nodup_cons.1 hnd).1
@@ -351,12 +351,13 @@ theorem SInv_step {cfg : Cfg} (wf : WF cfg) {s s' : State} {l : Label} (h : SInv
   | cbAcq i hi hl =>
       exact SInv_congr (SInv_set_task (x := .cbBody) h hi (by simp) (by simp)) rfl rfl rfl rfl rfl
   | cbFail i hi hf =>
-      exact SInv_finish (s := { s with log := s.log ++ [i], cbLock := false })
-        (SInv_congr h rfl rfl rfl rfl rfl) false hi (by simp) (by simp)
+      exact SInv_finish (s := { s with log := s.log ++ [i], cbLock := false
+                                       tLocks := s.tLocks.set (cfg.obj i) false })
+        (SInv_congr h rfl rfl (by simp) rfl rfl) false hi (by simp) (by simp)
   | cbOk i hi hf =>
-      exact SInv_congr (SInv_set_task (x := .tAcq) h hi (by simp) (by simp)) rfl rfl rfl rfl rfl
+      exact SInv_congr (SInv_set_task (x := .bAcq) h hi (by simp) (by simp)) rfl rfl rfl rfl rfl
   | tAcq i hi hl =>
-      exact SInv_congr (SInv_set_task (x := .bAcq) h hi (by simp) (by simp)) rfl rfl (by simp) rfl rfl
+      exact SInv_congr (SInv_set_task (x := .cbAcq) h hi (by simp) (by simp)) rfl rfl (by simp) rfl rfl
   | bTry i p hi hp =>
       have hp1 : p ≠ .notStarted := by rcases hp with rfl | rfl <;> simp
       have hp2 : p ≠ .done true := by rcases hp with rfl | rfl <;> simp
